@@ -2,7 +2,7 @@
    operations, an operation history, and the rendering of observations in the
    harness' text format.  Definitions only. *)
 From GoFlags Require Import Base.Str Base.Utf8 Golib.Strings Golib.Strconv
-     Model.Types Model.Tag Model.Scan Model.Lookup Model.Convert Model.State Model.Closest Model.Parse.
+     Model.Types Model.Tag Model.Scan Model.Lookup Model.Convert Model.State Model.Closest Model.Parse Model.Ini.
 Open Scope N_scope.
 
 Inductive attach_op :=
@@ -11,7 +11,9 @@ Inductive attach_op :=
             (usage : option str) (aliases : list str) (hidden subopt : bool).
 
 Inductive op :=
-| OpParse (args : list str).
+| OpParse (args : list str)
+| OpIni (text : str) (as_defaults : bool)
+| OpWriteIni (opts : N).      (* IniOptions bit mask: 2 include defaults, 4 comment defaults, 8 include comments *)
 
 Record scenario := {
   sc_cfg : pconfig;
@@ -205,6 +207,27 @@ Definition run_op (sc : scenario) (w : world) (o : op) : world * str * bool (* s
     | Ok (w', pres) => (w', render_op sc w' "parse" None (pr_err pres) (pr_ret pres) [], false)
     | Err e => (w, render_op sc w "parse" (Some (s2l "MODEL-ERR")) (Some e) None [], true)
     | Panic t => (w, render_op sc w "parse" (Some (s2l "PANIC:" ++ t)) None None [], true)
+    end
+  | OpIni text asdef =>
+    let cfg := sc_cfg sc in
+    match read_ini text with
+    | Err e => (w, render_op sc w "ini" None (Some e) None [], false)
+    | Panic t => (w, render_op sc w "ini" (Some (s2l "PANIC:" ++ t)) None None [], true)
+    | Ok f =>
+      match ini_apply (sc_orc sc) (pc_nsdelim cfg) (help_text_stub (w_tree w)) (po_ignore (pc_opts cfg)) asdef (w_tree w) f (w_rt w) with
+      | Ok (r', e) =>
+        let w' := {| w_tree := w_tree w; w_rt := r'; w_internal := w_internal w; w_attached := w_attached w |} in
+        (w', render_op sc w' "ini" None e None [], false)
+      | Err e => (w, render_op sc w "ini" (Some (s2l "MODEL-ERR")) (Some e) None [], true)
+      | Panic t => (w, render_op sc w "ini" (Some (s2l "PANIC:" ++ t)) None None [], true)
+      end
+    end
+  | OpWriteIni opts =>
+    let cfg := sc_cfg sc in
+    match write_ini (sc_orc sc) (N.testbit opts 1) (N.testbit opts 2) (N.testbit opts 3) (w_tree w) (w_rt w) with
+    | Ok t => (w, render_op sc w "writeini" None None None (line "bytes" (hex_of_str t)), false)
+    | Err e => (w, render_op sc w "writeini" (Some (s2l "MODEL-ERR")) (Some e) None [], true)
+    | Panic t => (w, render_op sc w "writeini" (Some (s2l "PANIC:" ++ t)) None None [], true)
     end
   end.
 
